@@ -22,12 +22,13 @@ RowOK(r) ==
                 meta == {"v1", "v2", "w1"}
             IN /\ r.status = (IF r.direct THEN 404 ELSE 200)
                /\ IF r.cname \in Protected THEN got \cap meta = {}
-                  ELSE IF r.cname = "Set-Cookie" THEN (IF r.on = "auth+call" THEN meta ELSE {"v1", "v2"}) \subseteq got
+                  \* Set-Cookie values accumulate: every supplied value once, in the order supplied
+                  ELSE IF r.cname = "Set-Cookie" THEN Hdr(r, r.cname) = (IF r.on = "auth+call" THEN <<"w1", "v1", "v2">> ELSE <<"v1", "v2">>)
                   ELSE Hdr(r, r.cname) = <<"v1", "v2">>
                /\ (r.body # "" => Hdr(r, "Content-Type") = <<"application/json; charset=utf-8">>)
       [] r.kind = "hdrdup" ->
             \* two spellings of one header name in one meta object: both values reach the response (in either order)
-            r.status = 200 /\ {"d1", "d2"} \subseteq Range(Hdr(r, r.cname))
+            r.status = (IF r.direct THEN 404 ELSE 200) /\ {"d1", "d2"} = Range(Hdr(r, r.cname)) /\ Len(Hdr(r, r.cname)) = 2
       [] r.kind = "cors" ->
             \* "" = no Origin header; "EMPTY" = an Origin header with an empty value (not a listed origin)
             LET ok == r.origin = "" \/ r.origin = "null" \/ r.lorigin \in {"http://a", "http://c"}
